@@ -298,11 +298,98 @@ theorem allSome_eq_some (l : List (Option Path)) (ps : List Path) :
         · intro ⟨hpq, hxs⟩
           exact ⟨qs, (ih _).2 hxs, by rw [hpq]; exact ⟨rfl, rfl⟩⟩
 
+theorem resolveHeads_errs_prefix (T : Table) (refs : List Ref) (errs : List Err) :
+    ∃ more, (resolveHeads T refs errs).2 = errs ++ more := by
+  induction refs generalizing errs with
+  | nil => exact ⟨[], by simp [resolveHeads]⟩
+  | cons r rs ih =>
+    obtain ⟨more, hm⟩ := ih (errs ++ (resolveHead T errs.isEmpty r).2)
+    exact ⟨(resolveHead T errs.isEmpty r).2 ++ more, by simp [resolveHeads, hm]⟩
+
+/-- what `resolveHead` adds to `resolveRef`: nothing, unless the head is bound to a module -/
+theorem resolveHead_nil_iff (T : Table) (r : Ref) (o : Option Path) :
+    resolveHead T true r = (o, []) ↔
+      resolveRef T true r = (o, []) ∧ ∀ d, o = some d → d.length ≠ 1 := by
+  unfold resolveHead
+  cases hx : resolveRef T true r with
+  | mk x1 x2 =>
+    simp only
+    cases x1 with
+    | none =>
+      simp only [Prod.mk.injEq]
+      constructor
+      · rintro ⟨rfl, rfl⟩; exact ⟨⟨rfl, rfl⟩, fun d h => by cases h⟩
+      · rintro ⟨⟨rfl, rfl⟩, _⟩; exact ⟨rfl, rfl⟩
+    | some d =>
+      cases hn : r.names with
+      | nil =>
+        simp only [Prod.mk.injEq]
+        constructor
+        · rintro ⟨rfl, rfl⟩
+          simp [resolveRef, hn] at hx
+        · rintro ⟨⟨rfl, rfl⟩, _⟩; exact ⟨rfl, rfl⟩
+      | cons nl rest =>
+        obtain ⟨n, l⟩ := nl
+        simp only
+        by_cases hd : d.length = 1
+        · simp only [hd, if_true, Prod.mk.injEq]
+          constructor
+          · rintro ⟨_, h⟩; simp at h
+          · rintro ⟨⟨rfl, _⟩, h⟩; exact absurd hd (h d rfl)
+        · simp only [hd, if_false, Prod.mk.injEq]
+          constructor
+          · rintro ⟨rfl, rfl⟩; exact ⟨⟨rfl, rfl⟩, fun d' h => by cases h; exact hd⟩
+          · rintro ⟨⟨rfl, rfl⟩, _⟩; exact ⟨rfl, rfl⟩
+
+theorem resolveHeads_nil_iff (T : Table) (refs : List Ref) (os : List (Option Path)) :
+    resolveHeads T refs [] = (os, []) ↔
+      resolveRefs T refs [] = (os, []) ∧ ∀ d, some d ∈ os → d.length ≠ 1 := by
+  induction refs generalizing os with
+  | nil =>
+    simp only [resolveHeads, resolveRefs, Prod.mk.injEq, and_true]
+    constructor
+    · rintro rfl; exact ⟨rfl, fun d h => nomatch h⟩
+    · rintro ⟨rfl, _⟩; rfl
+  | cons r rs ih =>
+    simp only [resolveHeads, resolveRefs, List.isEmpty_nil, List.nil_append, Prod.mk.injEq]
+    constructor
+    · rintro ⟨ho, he⟩
+      obtain ⟨more, hm⟩ := resolveHeads_errs_prefix T rs (resolveHead T true r).2
+      rw [he] at hm
+      have h2 : (resolveHead T true r).2 = [] := (List.append_eq_nil_iff.1 hm.symm).1
+      have hh := (resolveHead_nil_iff T r (resolveHead T true r).1).1 (Prod.ext rfl h2)
+      rw [h2] at ho he
+      have hrest := (ih (resolveHeads T rs []).1).1 (Prod.ext rfl he)
+      have h1 : (resolveRef T true r).2 = [] := by rw [hh.1]
+      have h1' : (resolveRef T true r).1 = (resolveHead T true r).1 := by rw [hh.1]
+      rw [h1]
+      refine ⟨⟨by rw [h1', hrest.1]; exact ho, by rw [hrest.1]⟩, ?_⟩
+      intro d hd
+      rw [← ho] at hd
+      rcases List.mem_cons.1 hd with hd | hd
+      · exact hh.2 d hd.symm
+      · exact hrest.2 d hd
+    · rintro ⟨⟨ho, he⟩, hlen⟩
+      obtain ⟨more, hm⟩ := resolveRefs_errs_prefix T rs (resolveRef T true r).2
+      rw [he] at hm
+      have h2 : (resolveRef T true r).2 = [] := (List.append_eq_nil_iff.1 hm.symm).1
+      rw [h2] at ho he
+      have hmem : ∀ d, some d ∈ (resolveRef T true r).1 :: (resolveRefs T rs []).1 → d.length ≠ 1 := by
+        rw [ho]; exact hlen
+      have hh := (resolveHead_nil_iff T r (resolveRef T true r).1).2
+        ⟨Prod.ext rfl h2, fun d hd => hmem d (by rw [hd]; exact List.mem_cons_self ..)⟩
+      have hrest := (ih (resolveRefs T rs []).1).2
+        ⟨Prod.ext rfl he, fun d hd => hmem d (List.mem_cons_of_mem _ hd)⟩
+      rw [hh]
+      simp only [hrest]
+      exact ⟨ho, trivial⟩
+
 /-- **End to end.**  `resolve_symbols` (table construction, imports, the pass over the plain
 references, the pass over the heads of the field references — sharing one error list) accepts a
-module set and binds the references to `ra` / the heads to `rb` **iff** no scope is given a name
-twice (`fullTable` reports no error), no reference stands outside every type, and every
-reference is resolvable per the scoping rules, to exactly these definitions.  So an accepted
+module set and binds the references to `ra` / the heads to `rb` (none of them to a whole module:
+an import alias is no field) **iff** no scope is given a name
+twice (`fullTable` reports no error) and every
+reference — those in module-level attributes included, whose current scope is the module — is resolvable per the scoping rules, to exactly these definitions.  So an accepted
 module has every name bound to the one lexically visible definition, and a module is rejected
 only if a name is defined twice, undefined, or visible from two scopes. -/
 theorem C12_resolve_symbols_iff (M : ModuleDesc) (refs : List Ref) (frefs : List FRef)
@@ -313,9 +400,9 @@ theorem C12_resolve_symbols_iff (M : ModuleDesc) (refs : List Ref) (frefs : List
       | .resolved a b => a = ra ∧ b = rb
       | _ => False) ↔
       ((fullTable M).2 = [] ∧
-       (refs ++ frefs.map headRef).any (fun r => r.ctx.types.isEmpty) = false ∧
        AllResolved (fullTable M).1 refs (ra.map some) ∧
-       AllResolved (fullTable M).1 (frefs.map headRef) (rb.map some)) := by
+       AllResolved (fullTable M).1 (frefs.map headRef) (rb.map some) ∧
+       ∀ d ∈ rb, d.length ≠ 1) := by
   have hneH : ∀ r ∈ frefs.map headRef, r.names ≠ [] := by
     intro r hr
     obtain ⟨f, hf, rfl⟩ := List.mem_map.1 hr
@@ -330,53 +417,64 @@ theorem C12_resolve_symbols_iff (M : ModuleDesc) (refs : List Ref) (frefs : List
     have := hnd' f hf
     unfold headRef
     cases hp : f.path <;> exact this
+  have hlen : ∀ (l : List Path), (∀ d, some d ∈ l.map some → d.length ≠ 1) ↔ ∀ d ∈ l, d.length ≠ 1 := by
+    intro l
+    constructor
+    · intro h d hd; exact h d (List.mem_map.2 ⟨d, hd, rfl⟩)
+    · intro h d hd
+      obtain ⟨d', hd', he⟩ := List.mem_map.1 hd
+      cases he
+      exact h d hd'
   unfold resolveSymbols
   simp only
   by_cases h1 : (fullTable M).2 = []
-  · by_cases h2 : (refs ++ frefs.map headRef).any (fun r => r.ctx.types.isEmpty) = true
-    · simp [h1, h2]
-    · simp only [h1, ne_eq, not_true_eq_false, if_false, h2, Bool.false_eq_true, true_and]
-      simp only [Bool.not_eq_true] at h2
-      obtain ⟨more, hm⟩ := resolveRefs_errs_prefix (fullTable M).1 (frefs.map headRef)
-        (resolveRefs (fullTable M).1 refs []).2
-      by_cases h3 : (resolveRefs (fullTable M).1 (frefs.map headRef)
-          (resolveRefs (fullTable M).1 refs []).2).2 = []
-      · simp only [h3, not_true_eq_false, if_false]
-        rw [h3] at hm
-        have ha2 : (resolveRefs (fullTable M).1 refs []).2 = [] :=
-          (List.append_eq_nil_iff.1 hm.symm).1
-        rw [ha2] at h3 ⊢
-        have hA := C12_accepted_iff_all_resolved (fullTable M).1 refs
-          (resolveRefs (fullTable M).1 refs []).1 hne hnd
-        have hB := C12_accepted_iff_all_resolved (fullTable M).1 (frefs.map headRef)
-          (resolveRefs (fullTable M).1 (frefs.map headRef) []).1 hneH hndH
-        have hA' := hA.1 (Prod.ext rfl ha2)
-        have hB' := hB.1 (Prod.ext rfl h3)
-        constructor
-        · intro h
-          cases hxa : allSome (resolveRefs (fullTable M).1 refs []).1 with
-          | none => simp [hxa] at h
-          | some xa =>
-            cases hxb : allSome (resolveRefs (fullTable M).1 (frefs.map headRef) []).1 with
-            | none => simp [hxa, hxb] at h
-            | some xb =>
-              simp only [hxa, hxb] at h
-              obtain ⟨rfl, rfl⟩ := h
-              rw [allSome_eq_some] at hxa hxb
-              rw [← hxa, ← hxb]
-              exact ⟨hA', hB'⟩
-        · intro ⟨hRa, hRb⟩
-          have e1 := C12_all_resolved_accepted _ _ _ hnd hRa
-          have e2 := C12_all_resolved_accepted _ _ _ hndH hRb
-          rw [e1, e2]
-          simp only [(allSome_eq_some _ _).2 rfl, and_self]
-      · simp only [h3, not_false_eq_true, if_true, false_iff, not_and]
-        intro hRa hRb
+  · simp only [h1, ne_eq, not_true_eq_false, if_false, true_and]
+    obtain ⟨more, hm⟩ := resolveHeads_errs_prefix (fullTable M).1 (frefs.map headRef)
+      (resolveRefs (fullTable M).1 refs []).2
+    by_cases h3 : (resolveHeads (fullTable M).1 (frefs.map headRef)
+        (resolveRefs (fullTable M).1 refs []).2).2 = []
+    · simp only [h3, not_true_eq_false, if_false]
+      rw [h3] at hm
+      have ha2 : (resolveRefs (fullTable M).1 refs []).2 = [] :=
+        (List.append_eq_nil_iff.1 hm.symm).1
+      rw [ha2] at h3 ⊢
+      have hA := C12_accepted_iff_all_resolved (fullTable M).1 refs
+        (resolveRefs (fullTable M).1 refs []).1 hne hnd
+      have hH := (resolveHeads_nil_iff (fullTable M).1 (frefs.map headRef)
+        (resolveHeads (fullTable M).1 (frefs.map headRef) []).1).1 (Prod.ext rfl h3)
+      have hB := C12_accepted_iff_all_resolved (fullTable M).1 (frefs.map headRef)
+        (resolveHeads (fullTable M).1 (frefs.map headRef) []).1 hneH hndH
+      have hA' := hA.1 (Prod.ext rfl ha2)
+      have hB' := hB.1 hH.1
+      constructor
+      · intro h
+        cases hxa : allSome (resolveRefs (fullTable M).1 refs []).1 with
+        | none => simp [hxa] at h
+        | some xa =>
+          cases hxb : allSome (resolveHeads (fullTable M).1 (frefs.map headRef) []).1 with
+          | none => simp [hxa, hxb] at h
+          | some xb =>
+            simp only [hxa, hxb] at h
+            obtain ⟨rfl, rfl⟩ := h
+            rw [allSome_eq_some] at hxa hxb
+            rw [← hxa, ← hxb]
+            refine ⟨hA', hB', ?_⟩
+            rw [← hlen, ← hxb]
+            exact hH.2
+      · intro ⟨hRa, hRb, hL⟩
         have e1 := C12_all_resolved_accepted _ _ _ hnd hRa
         have e2 := C12_all_resolved_accepted _ _ _ hndH hRb
-        rw [e1] at h3
-        rw [e2] at h3
-        exact h3 rfl
+        have e3 := (resolveHeads_nil_iff _ _ _).2 ⟨e2, (hlen rb).2 hL⟩
+        rw [e1, e3]
+        simp only [(allSome_eq_some _ _).2 rfl, and_self]
+    · simp only [h3, not_false_eq_true, if_true, false_iff, not_and]
+      intro hRa hRb hL
+      have e1 := C12_all_resolved_accepted _ _ _ hnd hRa
+      have e2 := C12_all_resolved_accepted _ _ _ hndH hRb
+      have e3 := (resolveHeads_nil_iff _ _ _).2 ⟨e2, (hlen rb).2 hL⟩
+      rw [e1] at h3
+      rw [e3] at h3
+      exact h3 rfl
   · simp [h1]
 
 /-! ## Duplicate definitions -/
@@ -528,6 +626,7 @@ theorem C12_member_lookup_errors (E : FEnv) (F i : Nat) (e : Err)
   | duplicate _ _ _ => exact absurd this (by simp [MemberErrKind])
   | ambiguous _ _ _ _ => exact absurd this (by simp [MemberErrKind])
   | badAlias _ _ => exact absurd this (by simp [MemberErrKind])
+  | moduleAsField _ _ => exact absurd this (by simp [MemberErrKind])
 
 /-- Corollary in the round-1 form: every bound path element is named `… ++ [its own name]` and
 is an existing definition. -/
